@@ -338,6 +338,11 @@ func ruleP7(c *Ctx) {
 					if isAppendStmt(s) {
 						appends++
 					}
+					// ocodes = helper(ocodes, S) where the helper appends one element per byte of S
+					if over := byteAppendHelperCall(c, info, s); over != nil {
+						loopAppends++
+						loopOver = over
+					}
 				case *ast.RangeStmt:
 					ast.Inspect(s.Body, func(n ast.Node) bool {
 						if as, ok := n.(*ast.AssignStmt); ok && isAppendStmt(as) {
@@ -511,6 +516,41 @@ func ruleF2(c *Ctx) {
 				}
 			}
 		})
+		// "RESB " + strconv.FormatInt(v, 10) / strconv.Itoa(int(v))
+		for _, b := range f.Blocks {
+			for _, in := range b.Instrs {
+				bo, ok := in.(*ssa.BinOp)
+				if !ok || bo.Op != token.ADD {
+					continue
+				}
+				k, ok := bo.X.(*ssa.Const)
+				if !ok || constantStringVal(k) != "RESB " {
+					continue
+				}
+				call, ok := bo.Y.(*ssa.Call)
+				if !ok {
+					continue
+				}
+				switch calleeName(call.Common()) {
+				case "strconv.FormatInt":
+					if base, ok := call.Call.Args[1].(*ssa.Const); !ok || base.Int64() != 10 {
+						continue
+					}
+				case "strconv.Itoa":
+				default:
+					continue
+				}
+				v := call.Call.Args[0]
+				for {
+					cv, ok := v.(*ssa.Convert)
+					if !ok {
+						break
+					}
+					v = cv.X
+				}
+				emitted = v
+			}
+		}
 		c.check(added != nil && added == emitted, "F2", "processRESB|same value sized and emitted", c.L.Pos(f.Pos()), fmt.Sprintf("LOC += %s but the ocode carries %s", valName(added), valName(emitted)))
 	}
 	g := c.L.SSAFunc("internal/codegen", "handleRESB")
@@ -648,4 +688,70 @@ func ruleN5(c *Ctx) {
 		c.check(ok, "N5", "(*Pass1).GetLOC|returns LOC", c.L.Pos(g.Pos()), "GetLOC returns the location counter")
 	}
 	c.floor("N5", 7)
+}
+
+// byteAppendHelperCall: `acc = helper(acc, S)` where helper (a function of internal/pass1) is
+// `for _, b := range []byte(s) { acc = append(acc, T(b)) }; return acc` on its own parameters.
+// Returns the expression the loop ranges over at the call site ([]byte(S)), or nil.
+func byteAppendHelperCall(c *Ctx, info *types.Info, s *ast.AssignStmt) ast.Expr {
+	if s.Tok != token.ASSIGN || len(s.Lhs) != 1 || len(s.Rhs) != 1 {
+		return nil
+	}
+	call, ok := s.Rhs[0].(*ast.CallExpr)
+	if !ok || len(call.Args) != 2 {
+		return nil
+	}
+	lid, ok1 := s.Lhs[0].(*ast.Ident)
+	aid, ok2 := call.Args[0].(*ast.Ident)
+	if !ok1 || !ok2 || lid.Name != aid.Name {
+		return nil
+	}
+	fn, ok := calleeOf(info, call).(*types.Func)
+	if !ok || fn.Pkg() == nil || !strings.HasSuffix(fn.Pkg().Path(), "internal/pass1") {
+		return nil
+	}
+	hd, hp := c.L.FuncDecl("internal/pass1", fn.Name())
+	if hd == nil || hd.Body == nil || hd.Recv != nil || len(hd.Body.List) != 2 {
+		return nil
+	}
+	var names []string
+	for _, f := range hd.Type.Params.List {
+		for _, n := range f.Names {
+			names = append(names, n.Name)
+		}
+	}
+	if len(names) != 2 {
+		return nil
+	}
+	rs, ok := hd.Body.List[0].(*ast.RangeStmt)
+	if !ok || len(rs.Body.List) != 1 {
+		return nil
+	}
+	if types.ExprString(rs.X) != "[]byte("+names[1]+")" || !isStringType(hp.TypesInfo.TypeOf(hd.Type.Params.List[len(hd.Type.Params.List)-1].Type)) {
+		return nil
+	}
+	as, ok := rs.Body.List[0].(*ast.AssignStmt)
+	if !ok || !isAppendStmt(as) {
+		return nil
+	}
+	if id, ok := as.Lhs[0].(*ast.Ident); !ok || id.Name != names[0] {
+		return nil
+	}
+	ac := as.Rhs[0].(*ast.CallExpr)
+	vid, _ := rs.Value.(*ast.Ident)
+	if len(ac.Args) != 2 || vid == nil || types.ExprString(ac.Args[0]) != names[0] {
+		return nil
+	}
+	el := ast.Unparen(ac.Args[1])
+	if conv, ok := el.(*ast.CallExpr); ok && len(conv.Args) == 1 {
+		el = ast.Unparen(conv.Args[0])
+	}
+	if eid, ok := el.(*ast.Ident); !ok || eid.Name != vid.Name {
+		return nil
+	}
+	ret, ok := hd.Body.List[1].(*ast.ReturnStmt)
+	if !ok || len(ret.Results) != 1 || types.ExprString(ret.Results[0]) != names[0] {
+		return nil
+	}
+	return &ast.CallExpr{Fun: &ast.ArrayType{Elt: ast.NewIdent("byte")}, Args: []ast.Expr{call.Args[1]}}
 }
